@@ -118,6 +118,23 @@ func Programs() []Input {
 	out = append(out, Input{Name: "eexec-hex-tiny", Kind: "ps", Data: append(append([]byte("%!PS\ncurrentfile eexec\n"), Hex(Eexec(tinyPlain))...), "cleartomark /after 1 def\n"...)})
 	tb := append([]byte("%!PS\ncurrentfile eexec\n"), Eexec(tinyPlain)...)
 	out = append(out, Input{Name: "eexec-binary-tiny", Kind: "ps", Data: append(tb, "\ncleartomark /after 1 def\n"...)})
+	// binary-looking sections whose first four cipher bytes are hexadecimal digits (not a legal
+	// binary prefix: the section is in the hex form by definition, whatever follows and however
+	// much of it has arrived when the decision is made)
+	for i, pre := range []string{"1aF0", "0000", "ABCD", "9f9f"} {
+		var r uint16 = 55665
+		var sec []byte
+		for _, c := range []byte(pre) {
+			r = (uint16(c)+r)*52845 + 22719
+			sec = append(sec, c)
+		}
+		for _, p := range tinyPlain {
+			c := p ^ byte(r>>8)
+			r = (uint16(c)+r)*52845 + 22719
+			sec = append(sec, c)
+		}
+		out = append(out, Input{Name: fmt.Sprintf("eexec-binary-after-four-hex-digits-%d", i), Kind: "ps", Data: append(append([]byte("%!PS\ncurrentfile eexec\n"), sec...), "\ncleartomark /after 1 def\n"...)})
+	}
 	// a program that starts with %! and is fed in pieces (CheckStart applies to the first piece only)
 	cs := tokenised("percent-bang-header", "%!PS-Adobe-3.0\n", "/a", "1", "def", "{", "a", "2", "add", "}", "exec", "[", "a", "a", "]", "length")
 	out = append(out, cs)
